@@ -110,7 +110,8 @@ def check(ctx):
     base_rs = dsp.methods['process_resources']
     rls = [rl for rl in find_resloops(repo, res, base_rs, [base_rs.params[1]]) if rl.kind == 'for']
     sigs, _ = resloop_signature(repo, res, rls[0])
-    run.check(all([k for k, _ in s.yields] == ['wrap'] and u(s.yields[0][1].value) == 'self.process_resource(%s)' % rls[0].var
+    from sa.normalize import resolve_here as _rh5
+    run.check(all([k for k, _ in s.yields] == ['wrap'] and u(_rh5(s.yields[0][1].value)) == 'self.process_resource(%s)' % rls[0].var
                   for s in sigs), 'R12', base_rs.where, base_rs.qualname, 'yield self.process_resource(res)',
               'the base resource loop does not forward every resource')
     run.floor('R12', n, 7, 'observer loops')
